@@ -643,7 +643,7 @@ def checkDomain (c : Ctx) : Nat → List Byte → Cnt → Bool → Res × Cnt
   | fuel + 1, domain, n, top =>
     let txt : Except Res (List (List Byte)) :=
       match c.dns.txt (if top then domain else targetName domain) with
-      | .ok rs => .ok (rs.map sanitizeTxt)
+      | .ok rs => .ok (txtView c.dns rs)
       | .error e =>
         match failOfTxt c.dev e with
         | none => .ok []
